@@ -36,7 +36,7 @@ from mypy.options import Options
 from mypy.server.update import FineGrainedBuildManager, refresh_suppressed_submodules
 from mypy.suggestions import SuggestionEngine, SuggestionFailure
 from mypy.typestate import reset_global_state
-from mypy.util import FancyFormatter, count_stats
+from mypy.util import FancyFormatter, count_stats, only_notes
 from mypy.version import __version__
 
 MEM_PROFILE: Final = False  # If True, dump memory profile after initialization
@@ -561,8 +561,8 @@ class Server:
 
             print_memory_profile(run_gc=False)
 
-        __, n_notes, __ = count_stats(messages)
-        status = 1 if messages and n_notes < len(messages) else 0
+        json_output = self.options.output == "json"
+        status = 1 if messages and not only_notes(messages, json_output) else 0
         # We use explicit sources length to match the logic in non-incremental mode.
         messages = self.pretty_messages(messages, original_sources_len, is_tty, terminal_width)
         return {"out": "".join(s + "\n" for s in messages), "err": "", "status": status}
@@ -853,8 +853,8 @@ class Server:
     def increment_output(
         self, messages: list[str], sources: list[BuildSource], is_tty: bool, terminal_width: int
     ) -> dict[str, Any]:
-        __, n_notes, __ = count_stats(messages)
-        status = 1 if messages and n_notes < len(messages) else 0
+        json_output = self.options.output == "json"
+        status = 1 if messages and not only_notes(messages, json_output) else 0
         messages = self.pretty_messages(messages, len(sources), is_tty, terminal_width)
         return {"out": "".join(s + "\n" for s in messages), "err": "", "status": status}
 
